@@ -33,10 +33,10 @@ REPLAY_PY = os.environ.get('VT_REPLAY_PY', '/venv/bin/python')
 # ----------------------------------------------------------------------------------------
 class Ob:
     """one proof obligation:  kind in eq | le | lt | true ;  meta is JSON-able"""
-    __slots__ = ('name', 'kind', 'lhs', 'rhs', 'meta', 'tol', 'method', 'hints', 'replayable', 'timeout_ms', 'assume')
+    __slots__ = ('name', 'kind', 'lhs', 'rhs', 'meta', 'tol', 'method', 'hints', 'replayable', 'timeout_ms', 'assume', 'cuts', 'facts')
 
     def __init__(self, name, kind, lhs, rhs=None, meta=None, tol=1e-9, method='direct', hints=(), replayable=True,
-                 timeout_ms=None, assume=()):
+                 timeout_ms=None, assume=(), cuts=(), facts=()):
         self.name = name
         self.kind = kind
         self.lhs = lhs
@@ -48,6 +48,8 @@ class Ob:
         self.replayable = replayable
         self.timeout_ms = timeout_ms
         self.assume = list(assume)     # extra assumptions local to this obligation (e.g. path condition)
+        self.cuts = list(cuts)         # indices into hints: those (swept) hint terms are cut to fresh variables (method 'split')
+        self.facts = list(facts)       # bool terms mentioning the hints: proved first, then kept as constraints on the cut variables
 
     def goal(self):
         if self.kind == 'true':
@@ -272,16 +274,52 @@ def run_config_symbolic(pid, cfg, tier, seed):
             if wit_status == 'infeasible-path':
                 continue
             # joint SMT sweeping of all obligations that ask for it (lemmas are shared between them)
-            sw = [o for o in case.obs if o.method == 'sweep' and o.goal() is not tm.TRUE]
+            sw = [o for o in case.obs if o.method in ('sweep', 'split') and o.goal() is not tm.TRUE]
             swept = {}
-            if sw:
-                goals = [o.goal() for o in sw]
-                hints = [L(h) for o in sw for h in o.hints]
-                newg, log = prove.sweep(goals, A, B.sampler(seed), timeout_ms=min(timeout_ms, 3000), hints=hints,
-                                        budget_s=cfg.get('sweep_budget_s', 60 if tier == 'quick' else 600))
+            groups = {}
+            for o in sw:
+                groups.setdefault(tuple(L(a).id for a in o.assume), []).append(o)
+            for key, obs_g in groups.items():
+                goals = [o.goal() for o in obs_g]
+                hints = [L(h) for o in obs_g for h in o.hints]
+                Ag = A + [L(a) for a in obs_g[0].assume]
+                budget = cfg.get('sweep_budget_s', 60 if tier == 'quick' else 600) / max(1, len(groups))
+                if obs_g[0].method == 'split':
+                    # staged pipeline: sweep up to the depth of the hints, cut the hint nodes, sweep the cut DAG, split
+                    o0 = obs_g[0]
+                    h0 = [L(h) for h in o0.hints]
+                    facts = [L(f) for f in o0.facts]
+                    md = max([h.depth for h in h0], default=0) + 1
+                    okfacts = [f for f in facts if prove.valid(f, Ag, 20000).verdict == 'proved']
+                    g1, log1 = prove.sweep(goals, Ag, B.sampler(seed), timeout_ms=min(timeout_ms, 3000), hints=h0,
+                                           budget_s=max(budget, cfg.get('stage1_budget_s', 150)), max_depth=md, protect=okfacts)
+                    sh = log1.pop('swept_hints', h0)
+                    okf = log1.pop('swept_protect', okfacts)
+                    mp = {}
+                    for k in o0.cuts:
+                        h = sh[k]
+                        base = h.a[0] if h.op == 'neg' else h
+                        if base.op not in ('var', 'const'):
+                            nm = 'cut!%d' % k
+                            mp[base.id] = tm.var(nm)
+                            B.dom[nm] = (-3.0, 3.0)
+                    cutall = tm.subst(g1 + okf + Ag, mp)
+                    g2, f2, A2 = cutall[:len(goals)], cutall[len(goals):len(goals) + len(okf)], cutall[len(goals) + len(okf):]
+                    A2 = [a for a in A2 + f2 if a is not tm.TRUE]
+                    r3, log3 = prove.sweep(g2, A2, B.sampler(seed), timeout_ms=2000, budget_s=budget)
+                    log3.pop('swept_hints', None)
+                    log3.pop('swept_protect', None)
+                    rec.setdefault('sweeps', []).append({'stage1': log1, 'cuts': len(mp), 'facts_proved': len(okf),
+                                                         'facts': len(facts), 'stage2': log3})
+                    for o, g in zip(obs_g, r3):
+                        swept[id(o)] = (g, A2)
+                    continue
+                newg, log = prove.sweep(goals, Ag, B.sampler(seed), timeout_ms=min(timeout_ms, 3000), hints=hints, budget_s=budget)
+                log.pop('swept_hints', None)
+                log.pop('swept_protect', None)
                 rec.setdefault('sweeps', []).append(log)
-                for o, g in zip(sw, newg):
-                    swept[id(o)] = g
+                for o, g in zip(obs_g, newg):
+                    swept[id(o)] = (g, None)
             for o in case.obs:
                 orec = discharge(mod, pid, cfg, o, A, B, timeout_ms, seed, path, swept.get(id(o)))
                 rec['obligations'].append(orec)
@@ -317,8 +355,23 @@ def discharge(mod, pid, cfg, o, A, B, timeout_ms, seed, path, swept_goal=None):
                 orec['guided'] = how
         if res is not None:
             pass
+        elif o.method == 'split':
+            g3, A3 = swept_goal if swept_goal is not None else (goal, AA)
+            st = {'leaves': 0, 'pruned': 0, 'unknown_leaves': 0}
+            res = prove.split_prove(g3, A3, to, expand=o.meta.get('expand_minmax', True),
+                                    deadline=time.time() + o.meta.get('split_budget_s', 120), stats=st)
+            orec['split'] = st
+            if res.verdict == 'cex':
+                # a model under the cut is only a proposal: decide it on the uncut goal with the inputs pinned
+                names = [n for n in tm.variables([goal] + AA)]
+                pins = [tm.eq(tm.var(k), tm.const(v)) for k, v in res.env.items() if k in names and v is not None]
+                r2 = prove.valid(goal, AA + pins, min(to, 10000))
+                if r2.verdict == 'cex':
+                    res = r2
+                else:
+                    res = prove.Result('unknown', note='model under the cut did not carry over to the uncut goal (%s)' % r2.verdict)
         elif o.method == 'sweep':
-            g2 = swept_goal if swept_goal is not None else goal
+            g2 = swept_goal[0] if swept_goal is not None else goal
             if g2 is tm.TRUE:
                 res = prove.Result('proved', note='sweep')
             else:
@@ -516,6 +569,70 @@ def _worker(args):
     return run_config_symbolic(pid, cfg, tier, seed)
 
 
+def _child(conn, args):
+    try:
+        rec = _worker(args)
+    except BaseException as e:      # noqa
+        rec = {'cfg': args[1], 'obligations': [], 'error': 'worker crashed: %r' % (e,), 'notes': [], 'paths': 0,
+               'stats': {}, 'wall_s': 0.0}
+    try:
+        conn.send(rec)
+    finally:
+        conn.close()
+
+
+def run_pool(pid, cfgs, tier, seed, jobs, verbose=False):
+    """one forked process per configuration, at most `jobs` at a time, each under a hard wall-clock budget
+    (a configuration that exceeds it is reported inconclusive, never as success)"""
+    import multiprocessing as mp
+    ctxm = mp.get_context('fork')
+    default_budget = 300 if tier == 'quick' else 3600
+    pending = list(cfgs)
+    running = []
+    recs = []
+    while pending or running:
+        while pending and len(running) < max(1, jobs):
+            cfg = pending.pop(0)
+            parent, child = ctxm.Pipe(duplex=False)
+            p = ctxm.Process(target=_child, args=(child, (pid, cfg, tier, seed)))
+            p.start()
+            child.close()
+            running.append((p, parent, cfg, time.time(), cfg.get('budget_s', default_budget)))
+        still = []
+        for (p, conn, cfg, t0, budget) in running:
+            rec = None
+            if conn.poll(0):
+                try:
+                    rec = conn.recv()
+                except EOFError:
+                    rec = {'cfg': cfg, 'obligations': [], 'error': 'worker died', 'notes': [], 'paths': 0, 'stats': {},
+                           'wall_s': time.time() - t0}
+                p.join(5)
+            elif not p.is_alive():
+                rec = {'cfg': cfg, 'obligations': [], 'error': 'worker died (exit %s)' % p.exitcode, 'notes': [], 'paths': 0,
+                       'stats': {}, 'wall_s': time.time() - t0}
+            elif time.time() - t0 > budget:
+                p.terminate()
+                p.join(2)
+                if p.is_alive():
+                    p.kill()
+                rec = {'cfg': cfg, 'obligations': [{'name': 'configuration-finished-within-budget', 'kind': 'true',
+                                                    'verdict': 'unknown', 's': budget, 'size': 0, 'method': 'budget',
+                                                    'note': 'wall-clock budget of %ds exceeded' % budget}],
+                       'error': None, 'notes': [], 'paths': 0, 'stats': {}, 'wall_s': time.time() - t0}
+            if rec is None:
+                still.append((p, conn, cfg, t0, budget))
+            else:
+                conn.close()
+                recs.append(rec)
+                if verbose:
+                    print('  done', cfg_key(rec['cfg'])[:110], '%.1fs' % rec['wall_s'], flush=True)
+        running = still
+        if running:
+            time.sleep(0.05)
+    return recs
+
+
 def main(argv=None):
     import argparse
     ap = argparse.ArgumentParser()
@@ -537,19 +654,7 @@ def main(argv=None):
     cfgs = mod.configs(a.tier)
     if a.only:
         cfgs = [c for c in cfgs if all(s in cfg_key(c) for s in a.only.split(';'))]
-    import multiprocessing as mp
-    recs = []
-    jobs = [(a.pid, c, a.tier, seed) for c in cfgs]
-    if a.jobs <= 1 or len(jobs) <= 1:
-        for j in jobs:
-            recs.append(_worker(j))
-    else:
-        ctxm = mp.get_context('fork')
-        with ctxm.Pool(min(a.jobs, len(jobs)), maxtasksperchild=4) as pool:
-            for r in pool.imap_unordered(_worker, jobs, chunksize=1):
-                recs.append(r)
-                if a.v:
-                    print('  done', cfg_key(r['cfg'])[:100], '%.1fs' % r['wall_s'], flush=True)
+    recs = run_pool(a.pid, cfgs, a.tier, seed, a.jobs, verbose=a.v)
     recs.sort(key=lambda r: cfg_key(r['cfg']))
     return report(mod, a.pid, a.tier, seed, recs, time.time() - t0, verbose=a.v)
 
